@@ -28,6 +28,7 @@ func runC12(w *World, r *Report) {
 	r.Rule("R-C12-4", "no nested acquisition of the context mutex: a function that holds bytecode.Context.mux calls on that context no method that takes it again (profiling, tracing and line bookkeeping run under it while a goroutine is being launched)", 3)
 	noNestedAcquire(w, r, "R-C12-4", "internal/language/bytecode", "Context")
 	c12SignalsAreNotErrors(w, r)
+	c12TraceNotCaptured(w, r)
 	r.Rule("R-C12-2", "lock pairing: every Lock/RLock in packages bytecode and debugger is released on all paths to a return (directly or by defer)", 10)
 
 	bp := w.pkg("internal/language/bytecode")
